@@ -363,12 +363,14 @@ class SpectralDensity(DFunction, UnitsManaged):
             # This brings the reorganisation energy up to the literature value of 102
             #cfce = cfce * 3.19
 
+        # data and reorganization energy of a component are added to those
+        # of the components created before it
         if values is not None:
-            self._make_me(self.axis, values)
+            self._add_me(self.axis, values)
         else:
-            self._make_me(self.axis, cfce)
+            self._add_me(self.axis, cfce)
 
-        self.lamb = params["reorg"]            
+        self.lamb += params["reorg"]            
         self.lim_omega = numpy.zeros(2)
         self.lim_omega[0] = 0.0
         self.lim_omega[1] = 0.0
